@@ -69,6 +69,8 @@ def analyse(ctx):
                         return 'contexts'
                     if r in ('self.contexts[0].symbols',):
                         return 'scopes'
+                    if r in ('self.contexts[0].symbols[0]',):
+                        return 'definitions'
                     return None
                 for st in stmts:
                     if st['k'] == 's_let' and st.get('init') is not None and st['pat'].get('k') == 'p_ident':
@@ -78,8 +80,14 @@ def analyse(ctx):
                     if e is None:
                         ok_reset = False
                         break
-                    if e.get('k') == 'mcall' and e['method'] == 'truncate' and e['args'] and e['args'][0].get('value') == 1 and target(e['recv']):
+                    if e.get('k') == 'mcall' and e['method'] == 'truncate' and e['args'] and e['args'][0].get('value') == 1 and target(e['recv']) in ('contexts', 'scopes'):
                         what.add(target(e['recv']))
+                        continue
+                    # the outermost scope of the global context is cut back to a length handed in by the caller
+                    params_ = [i_['pat']['name'] for i_ in f['inputs'] if not i_.get('self') and i_['pat'].get('k') == 'p_ident']
+                    if e.get('k') == 'mcall' and e['method'] == 'truncate' and e['args'] and path_of(e['args'][0]) and path_of(e['args'][0])[0] in params_ \
+                            and target(e['recv']) == 'definitions':
+                        what.add('definitions')
                         continue
                     if e.get('k') == 'while':
                         bst = e['body']['stmts']
@@ -99,6 +107,8 @@ def analyse(ctx):
                     break
                 if ok_reset and what:
                     c.symtab_reset[name] = what
+            if f['output'].replace(' ', '').replace('->', '') == 'usize' and any(i_.get('self') and not i_.get('mut') for i_ in f['inputs']):
+                c.symtab_pure.add(name)
             if 'Option<Symbol>' in f['output'].replace(' ', '') and name != 'resolve':
                 c.symtab_resolve.add(name)
         from rules import tables
@@ -160,7 +170,7 @@ def analyse(ctx):
                         left.append('half-emitted code')
                     if st.last not in ('None', '?') and st.emitted:
                         left.append('peephole register')
-                    NAMES = {'scopes': 'open scope(s) of nested blocks', 'contexts': 'open function context(s)', 'loops': 'loop context(s)', 'code': 'half-emitted code', 'last': 'the peephole register'}
+                    NAMES = {'definitions': 'global definitions made by the failed program', 'scopes': 'open scope(s) of nested blocks', 'contexts': 'open function context(s)', 'loops': 'loop context(s)', 'code': 'half-emitted code', 'last': 'the peephole register'}
                     for d_ in sorted(st.dirty):
                         left.append(NAMES.get(d_, d_) + ' left by the failed statement')
                     if left:
